@@ -224,6 +224,8 @@ def concrete_playback(crate, harness, cbmc_args=(), features=None, timeout=900, 
     # counterexamples of failed checks first; the witnesses of satisfied cover properties are kept as further candidate
     # inputs (Kani does not always print a test for the failed assertion): a candidate only counts if the native run of
     # the same harness body FAILS on it
+    crashed = rc in (124, 137, -9) or "CBMC failed with status" in out or "run out of memory" in out or "Out of memory" in out
+    concrete_playback.last_crashed = crashed and not tests
     return [t for t in tests if not t["is_cover"]] + [t for t in tests if t["is_cover"]]
 
 
@@ -471,9 +473,14 @@ def check_kani_property(prop, spec, tier):
         tests = []
         for _attempt in range(3):
             # Kani does not always emit a playback test for the failed assertion (observed: only the
-            # cover witnesses were printed in one of two identical runs), so ask again if needed
-            tests = concrete_playback(gcrate, h, cbmc_args=g.get("cbmc_args", ()), features=features)
+            # cover witnesses were printed in one of two identical runs), so ask again if needed; a run that died
+            # (trace generation needs more memory and time than the verdict did) is repeated ONCE with 28 GB / 45 min
+            big = _attempt > 0 and getattr(concrete_playback, "last_crashed", False)
+            tests = concrete_playback(gcrate, h, cbmc_args=g.get("cbmc_args", ()), features=features,
+                                      timeout=2700 if big else 900, mem_gb=28 if big else 14)
             if [t for t in tests if not t["is_cover"]]:
+                break
+            if big:
                 break
         reproduced = False
         how = "none"
